@@ -1,0 +1,21 @@
+//go:build verif
+
+package mint
+
+import (
+	"net/http"
+
+	"github.com/elnosh/gonuts/mint/storage"
+)
+
+// Hooks for the deterministic-simulation harness (build tag "verif" only).
+// They expose existing seams; no behaviour changes when the tag is off.
+
+// VerifWrapDB replaces the mint's storage with wrap(current storage).
+func (m *Mint) VerifWrapDB(wrap func(storage.MintDB) storage.MintDB) { m.db = wrap(m.db) }
+
+// VerifDB returns the mint's current storage object.
+func (m *Mint) VerifDB() storage.MintDB { return m.db }
+
+// VerifHandler returns the HTTP handler of the mint server without starting a listener.
+func (ms *MintServer) VerifHandler() http.Handler { return ms.httpServer.Handler }
